@@ -55,8 +55,20 @@ def derivative(poly: PolyLike, *diffvars: Union[ndpoly, str, int]) -> ndpoly:
             (exponent[idx] * coefficient.T).T
             for exponent, coefficient in zip(exponents, poly.coefficients)
         ]
-        exponents[:, idx] -= 1
-        assert not numpy.any(exponents < 0)
+        # terms free of the variable vanish (and must not be decremented, as
+        # the exponents are unsigned)
+        keep = exponents[:, idx] > 0
+        if numpy.any(keep):
+            exponents = exponents[keep]
+            exponents[:, idx] -= 1
+            coefficients = [
+                coefficient
+                for coefficient, keep_ in zip(coefficients, keep)
+                if keep_
+            ]
+        else:
+            exponents = numpy.zeros((1, len(poly.names)), dtype=exponents.dtype)
+            coefficients = [numpy.zeros_like(coefficients[0])]
 
         poly = numpoly.ndpoly.from_attributes(
             exponents=exponents,
